@@ -102,10 +102,12 @@ fn parse_message(data: &[u8]) -> IResult<&[u8], Interrogation> {
         let (data, station) = Station::parse(data)?;
         push_unwrap(&mut stations, station);
         let remaining = remaining_bits(data);
-        let data = if remaining >= 30 {
+        // a second destination needs the 2 spare bits, its MMSI and at least one message id
+        let data = if remaining >= 38 {
+            let (data, _spare) = take_bits::<_, u8, _, _>(2u8)(data)?;
             let (data, station) = Station::parse(data)?;
             push_unwrap(&mut stations, station);
-            take_bits::<_, u8, _, _>(2u8)(data)?.0
+            data
         } else {
             (<&[u8]>::default(), 0)
         };
